@@ -134,8 +134,9 @@ def run_config(case, config, seed, which, want_c10=False, gs_override=None):
         const = case["const_eo"][oi]
     rec = {"config": [kind, cons, obj, bool(fi), gs], "data": {"g": g, "y": y, "s": s}, "which": which}
     try:
+        # prefit alternates: with prefit=False the optimiser clones and fits the (pass-through) estimator itself
         to = ThresholdOptimizer(estimator=Passthrough(), constraints=cons, objective=obj, grid_size=gs, flip=bool(fi),
-                                prefit=True, predict_method="predict")
+                                prefit=bool((which + ki) % 2), predict_method="predict")
         to.fit(X, y, sensitive_features=g)
         pmf = to._pmf_predict(X, sensitive_features=g)
     except Exception as e:
